@@ -226,7 +226,8 @@ def listedOps : List String :=
    "list.move_start_to", "list.move_end_to", "list.deepcopy", "map.deepcopy", "mapset.deepcopy", "map.rate",
    "mapset.rate"] ++ converterOps ++
   ["write.osu", "write.quaver", "write.sm", "write.bms", "alg.full_ln", "alg.hitsound_copy", "alg.sv_normalize",
-   "alg.scroll_speed", "alg.dominant_bpm", "ptn.from_note_lists", "ptn.group", "ptn.combinations"]
+   "alg.scroll_speed", "alg.dominant_bpm", "ptn.from_note_lists", "ptn.group", "ptn.combinations"] ++
+  fileWriterOps ++ queryOps.map (·.1)
 
 theorem opTable_covers_listed :
     (∀ n ∈ listedOps, ∃ s, lookup n = some s ∧ s.name = n ∧ s.copy = true) ∧ (opTable.map (·.name)).Nodup := by
@@ -250,6 +251,63 @@ theorem call_frame_opTable {s : Sig} (hs : s ∈ opTable) {args : List Obj} (h :
     (hw : b.within s h.length args = true) (hv : validArgs h.length args = true) :
     FrameHolds h (applyBeh h b) (reach args) :=
   call_frame h (opTable_pure s hs) hw hv
+
+/-- `lookup` finds members of the table -/
+theorem lookup_mem {n : String} {s : Sig} (h : lookup n = some s) : s ∈ opTable := by
+  unfold lookup at h
+  exact List.mem_of_find?_eq_some h
+
+/-- **every listed operation, instantiated.**  For each operation the table lists as returning a new value — the
+property's own list, the file writers, and the queries / constructors / analyses of the public surface of
+TimedList, HoldList, BpmList, Map, MapSet, ConvertBase, Pattern (`queryOps`) — the table has a signature, and for
+EVERY heap, arguments and behaviour within that signature: the arguments' cells are unchanged by the call, the
+result reaches no cell that existed before, and any later in-place change of the result leaves every cell that
+existed before the call as it was. -/
+theorem listed_op_frame_fresh :
+    ∀ n ∈ listedOps, ∃ s, lookup n = some s ∧
+      ∀ (h : Heap α) (args : List Obj) (b : Beh α), b.within s h.length args = true →
+        (validArgs h.length args = true → FrameHolds h (applyBeh h b) (reach args)) ∧
+        Fresh h.length b.ret ∧
+        ∀ ws : List (Ref × α), (∀ w ∈ ws, w.1 ∈ b.ret) →
+          FrameHolds h (applyWrites (applyBeh h b) ws) (List.range h.length) := by
+  intro n hn
+  obtain ⟨s, hl, _, hc⟩ := opTable_covers_listed.1 n hn
+  have hm := lookup_mem hl
+  have hp := opTable_pure s hm
+  have hf := opTable_copy_fresh s hm hc
+  refine ⟨s, hl, fun h args b hw => ⟨fun hv => call_frame h hp hw hv, (call_fresh h hf hw).1, fun ws hws => ?_⟩⟩
+  exact copy_result_mutation_frame_all h ws hp hf hw hws
+
+/-- **accessors** (`tl.df`, a column, `iloc`/`loc`, `to_numpy`, `from_dict`, `m[Class]` / `m.hits` / `m.notes`,
+iteration and indexing of a set, the stacked views, `to_timing_map`) and the two sharing controls: the table has a
+signature for each; a call within it changes no cell of its arguments, and its result reaches only cells the call
+allocated itself and cells of its arguments — nothing else of the heap. -/
+theorem accessor_frame_bounded :
+    ∀ n ∈ accessorOps.map (·.1) ++ ["list.wrap", "list.slice", "bpm.to_timing_map"], ∃ s, lookup n = some s ∧ s.copy = false ∧
+      ∀ (h : Heap α) (args : List Obj) (b : Beh α), b.within s h.length args = true →
+        (validArgs h.length args = true → FrameHolds h (applyBeh h b) (reach args)) ∧
+        ∀ r ∈ b.ret, (h.length ≤ r ∧ r < h.length + b.news.length) ∨ r ∈ reach args := by
+  have key : ∀ n ∈ accessorOps.map (·.1) ++ ["list.wrap", "list.slice", "bpm.to_timing_map"],
+      ∃ s, lookup n = some s ∧ s.copy = false := by decide
+  intro n hn
+  obtain ⟨s, hl, hc⟩ := key n hn
+  have hp := opTable_pure s (lookup_mem hl)
+  exact ⟨s, hl, hc, fun h args b hw => ⟨fun hv => call_frame h hp hw hv, within_ret_bounded hw⟩⟩
+
+/-- every signature of the table is either a copy (shares nothing) or an accessor / control of the theorem above:
+the two theorems together speak about the whole table -/
+theorem opTable_partition :
+    ∀ s ∈ opTable, (s.copy = true ∧ s.name ∈ listedOps) ∨
+      (s.copy = false ∧ s.name ∈ accessorOps.map (·.1) ++ ["list.wrap", "list.slice", "bpm.to_timing_map"]) := by decide
+
+/-- **the public surface is inside the table.**  Every function, property, class method and static method the
+source defines on TimedList, HoldList, BpmList, Map, MapSet, ConvertBase and Pattern (read by the translator on
+every run) has an entry in `surfaceOps`; each operation named there has a signature in the table; an entry without
+operations is one of `notOperations`.  A method added to one of these classes breaks this theorem until the
+table is extended. -/
+theorem public_surface_covered :
+    ∀ m ∈ Generated.Effects.publicSurface, ∃ e ∈ surfaceOps, e.1 = m ∧
+      (e.2 = [] → m ∈ notOperations) ∧ ∀ o ∈ e.2, (lookup o).isSome = true := by decide +kernel
 
 /-! ## why the hypotheses are needed: counterexamples -/
 
@@ -282,7 +340,7 @@ theorem n14a_counterexample :
 
 /-- * the table's converter operations are exactly the `convert*` entry points of the converter classes in
     `reamber/algorithms/convert`;
-  * its writers are exactly the games whose chart class has `write`;
+  * its writers are exactly the games whose chart class has `write`, its file writers those with `write_file`;
   * every operation the table marks as a deep copy (converters aside) is one whose source body makes a copy
     (`deepcopy`/`.deepcopy()`), and `sv_normalize` copies the tempo frame (D17's repair);
   * `TimedList.__deepcopy__` exists and copies the objects held in object columns (D39's repair: the table's
@@ -293,6 +351,7 @@ theorem source_tie :
     (∀ n ∈ Generated.Effects.converterOps, n ∈ converterOps) ∧
     (opTable.map (·.name)).filter (fun n => writerOps.contains n) = Generated.Effects.writerOps ∧
     writerOps = Generated.Effects.writerOps ∧
+    fileWriterOps = Generated.Effects.fileWriterOps ∧
     (∀ s ∈ opTable, s.deep = true → s.name ∈ converterOps ∨ (s.name, true) ∈ Generated.Effects.makesCopy) ∧
     ("alg.sv_normalize", true) ∈ Generated.Effects.makesCopy ∧
     ("list.__deepcopy__.object_columns", true) ∈ Generated.Effects.makesCopy ∧
@@ -312,6 +371,13 @@ example :
     run opTable ({ heap := [1, 2], results := [] } : State Nat)
       [.call (lookup "alg.sv_normalize").get! [[("", 0), ("objs.s:bpms._df", 1)]]
         { writes := [(1, 20)], news := [3], ret := [2] }] = none := by decide
+
+/-- the hypotheses of `listed_op_frame_fresh` / `accessor_frame_bounded` are satisfiable: a query that allocates its
+result, an accessor that hands out a cell of its argument next to a new one -/
+example : (⟨[], [30], [2]⟩ : Beh Nat).within (lookup "bpm.snap_offsets").get! 2 [[("", 0), ("_df", 1)]] = true := by decide
+example : (⟨[], [30], [2, 1]⟩ : Beh Nat).within (lookup "list.to_numpy").get! 2 [[("", 0), ("_df", 1)]] = true := by decide
+/-- an accessor's result may not reach a cell that belongs to no argument -/
+example : (⟨[], [30], [3, 2]⟩ : Beh Nat).within (lookup "list.df").get! 3 [[("", 0), ("_df", 1)]] = false := by decide
 
 /-- the hypotheses of `copy_result_mutation_frame` are satisfiable -/
 example : (⟨[], [30], [1]⟩ : Beh Nat).within (lookup "map.rate").get! 1 [[("", 0)]] = true := by decide
